@@ -460,6 +460,30 @@ static void byz_on_record(Conn *c, int dir, int idx, const uint8_t *rec_in, size
 	char *what = g_byz_what[hit % 3];
 	int tls13 = g_bp->proto == P_TLS13;
 
+	if (g_bp->proto == P_TLCP && dir == DIR_C2S && rec_in[0] == TLS_record_handshake && len > 9 && rec_in[5] == TLS_handshake_client_key_exchange
+	    && !g_byz_ccs_seen[dir] && rng_chance(&r, 1, 2)) {
+		/* a client that encrypts a well-formed 48-byte pre-master secret to the right certificate, but with another
+		 * version in its first two bytes (or none of the expected structure at all) */
+		const CredSet *cr = (g_bp->cred_mode & 1) ? creds_get_eku((int)g_bp->depth, 1) : creds_get((int)g_bp->depth, 1);
+		uint8_t pms[48], ct[SM2_MAX_CIPHERTEXT_SIZE]; size_t cl = 0;
+		rng_bytes(&r, pms, 48);
+		static const uint8_t vers[][2] = { { 3, 3 }, { 3, 1 }, { 1, 0 }, { 0, 0 } };
+		memcpy(pms, vers[rng_below(&r, 4)], 2);
+		SM2_KEY pub; memset(&pub, 0, sizeof(pub)); pub.public_key = cr->srv_enc.key.public_key;
+		g_setup_node = -1;
+		if (sm2_encrypt(&pub, pms, 48, ct, &cl) == 1 && cl + 11 < sizeof(plain)) {
+			leak_add_secret("pre_master_secret", pms, 48);
+			memcpy(plain, rec_in, 5);
+			plain[5] = TLS_handshake_client_key_exchange; plain[6] = 0; plain[7] = (uint8_t)((cl + 2) >> 8); plain[8] = (uint8_t)(cl + 2);
+			plain[9] = (uint8_t)(cl >> 8); plain[10] = (uint8_t)cl; memcpy(plain + 11, ct, cl);
+			plain[3] = (uint8_t)((cl + 6) >> 8); plain[4] = (uint8_t)(cl + 6);
+			snprintf(what, 96, "cke_reencrypted_pms_version_%02x%02x", pms[0], pms[1]);
+			g_byz_fired++;
+			sim_trace(EV_FAULT, F_MUT, idx);
+			net_forward(c, dir, plain, cl + 11);
+			return;
+		}
+	}
 	if (!tls13 && g_byz_ccs_seen[dir] && rec_in[0] == TLS_record_handshake && rng_chance(&r, 1, 2)) {
 		/* the sender's first protected record (its Finished) is replaced by a correctly protected record of its own
 		 * keys that is something else: application data, an alert, or a handshake message of another type */
@@ -486,7 +510,7 @@ static void byz_on_record(Conn *c, int dir, int idx, const uint8_t *rec_in, size
 			return;
 		}
 	}
-	if (rec_in[0] == TLS_record_handshake) {
+	if (rec_in[0] == TLS_record_handshake && !(!tls13 && g_byz_ccs_seen[dir])) {
 		memcpy(plain, rec_in, len);
 		size_t n = hs_mutate(&r, plain, len, TLS_MAX_RECORD_SIZE, tls13, what, 96);
 		g_byz_fired++;
@@ -518,8 +542,8 @@ static void byz_on_record(Conn *c, int dir, int idx, const uint8_t *rec_in, size
 	/* anything else (CCS, CBC-protected Finished, data): raw byte-level damage, or a record of the same type whose
 	 * body has another (block-aligned or not, small or maximal) size than its receiver's staging buffer expects */
 	if (rng_chance(&r, 1, 3)) {
-		static const size_t sizes[] = { 1, 16, 32, 48, 320, 336, 1024, 4096, 16384, 16400, 18432 };
-		size_t bl = sizes[rng_below(&r, 11)];
+		static const size_t sizes[] = { 1, 16, 32, 48, 320, 336, 1024, 4096, 16384, 16400, 18432, 18433, 18437 };
+		size_t bl = sizes[rng_below(&r, 13)];
 		memcpy(plain, rec_in, 5);
 		rng_bytes(&r, plain + 5, bl > 64 ? 64 : bl);
 		if (bl > 64) memset(plain + 5 + 64, 0x3c, bl - 64);
